@@ -156,6 +156,12 @@ Definition const_agree (c : string * N * N * option N) : bool :=
   let '(_, cv, gv, jv) := c in
   (cv =? gv) && match jv with Some j => cv =? j | None => true end.
 
+(* a Go use of a mirror field against a constant: the value must be a declared value of the C enumeration and,
+   where the Go branch / constant name says which enumerator is meant, that enumerator's value *)
+Definition magic_ok (u : string * N * option N * list N) : bool :=
+  let '(_, v, req, allowed) := u in
+  existsb (N.eqb v) allowed && match req with Some r => v =? r | None => true end.
+
 (* field lookup used by the key models *)
 Definition field_off (ly : layout) (name : string) : option N :=
   match find (fun l => String.eqb (lf_name l) name) (ly_leaves ly) with
